@@ -6,7 +6,7 @@
    is in progress at p); and once an evaluation has returned, its cache entry is there for good. *)
 From Coq Require Import Lia.
 From PegV Require Import Utf8 Utf8Facts State Terminals Syntax Fields FieldsFacts Literals Model
-  WellFormed Termination.
+  WellFormed Termination OnceWF.
 
 (* ---- offsets of the terminal matchers ------------------------------------------------ *)
 (* offset + remaining bytes = length of the input *)
@@ -134,16 +134,15 @@ Variable hk : hooks ustate.
 Variable g : grammar.
 Variable nul : name -> bool.
 Variable rk : runit -> nat.
-Hypothesis WF : wf_check g nul rk = true.
-Hypothesis NoLR : forall r, In (GRule r) g -> fl_left_recursive (flags_of (r_directives r)) = false.
+Hypothesis WF : wf_check_once g nul rk = true.
 Hypothesis Hclosed : memo_closed rcfg = true.
 Variable LEN : nat.                       (* the length of the input *)
 
 Notation glb := (glob ustate).
 Notation Run := (run ustate scfg tcfg fcfg rcfg hk g).
 Notation enull := (enull nul).
-Notation wfe := (wfe nul rk).
-Notation wfseq := (wfseq nul rk).
+Notation wfe := (wfeS nul rk).
+Notation wfseq := (wfseqS nul rk).
 
 Definition ent := (name * nat)%type.
 
@@ -228,8 +227,48 @@ Proof. unfold kat. destruct (Nat.eqb (off st1) (off st)); auto. Qed.
 Lemma ws_ok_kat st st1 k s : ws_ok rk k s = true -> ws_ok rk (kat st st1 k) s = true.
 Proof. unfold ws_ok. destruct s; [apply bound_kat|auto]. Qed.
 
-Lemma wfe_kat st st1 k s e : wfe k s e = true -> wfe (kat st st1 k) s e = true.
-Proof. unfold kat. destruct (Nat.eqb (off st1) (off st)); [auto|apply wfe_weaken]. Qed.
+Lemma wfe_kat st st1 x k s e : wfe x k s e = true -> wfe x (kat st st1 k) s e = true.
+Proof. unfold kat. destruct (Nat.eqb (off st1) (off st)); [auto|apply wfeS_weaken]. Qed.
+
+Lemma wfseq_kat st st1 x k s ps : wfseq x k s ps = true -> wfseq x (kat st st1 k) s ps = true.
+Proof. unfold kat. destruct (Nat.eqb (off st1) (off st)); [auto|apply wfseqS_weaken]. Qed.
+
+(* the exemption: inside the body of the @leftrec rule x, and as long as nothing has been consumed
+   (k is not None), x has its cache entry at the current offset *)
+Definition mono (gl gl' : glb) : Prop := forall e, has_entry e gl -> has_entry e gl'.
+
+Definition opn (x : option name) (k : option nat) (st : pstate) (gl : glb) : Prop :=
+  forall a, x = Some a -> is_lrule g a = true /\ (k <> None -> has_entry (a, off st) gl).
+
+Lemma opn_none k st gl : opn None k st gl.
+Proof. intros a H. discriminate. Qed.
+
+Lemma opn_kat x k k' st st1 gl gl1 :
+  (k' <> None -> k <> None) -> mono gl gl1 -> opn x k st gl -> opn x (kat st st1 k') st1 gl1.
+Proof.
+  intros K M O a Ha. destruct (O a Ha) as [L H]. split; [exact L|]. unfold kat.
+  destruct (Nat.eqb (off st1) (off st)) eqn:Q; [|intro N; exfalso; apply N; reflexivity].
+  apply Nat.eqb_eq in Q. intro N. rewrite Q. apply M. apply H. apply K. exact N.
+Qed.
+
+Lemma opn_same x k st st1 gl gl1 : off st1 = off st -> mono gl gl1 -> opn x k st gl -> opn x k st1 gl1.
+Proof. intros E M O a Ha. destruct (O a Ha) as [L H]. split; [exact L|]. intro N. rewrite E. apply M. apply H. exact N. Qed.
+
+Lemma G_mono p k gl gl' : G p k gl gl' -> mono gl gl'.
+Proof. intros [M _]. exact M. Qed.
+
+Lemma mono_refl gl : mono gl gl.
+Proof. intros e H. exact H. Qed.
+
+(* a rule may be called when its rank is below the bound, or when it is the open @leftrec rule *)
+Definition callok (k : option nat) (n : name) (st : pstate) (gl : glb) : Prop :=
+  bound_ok rk k (UCall n) = true \/ (is_lrule g n = true /\ has_entry (n, off st) gl).
+
+Definition bestok (n : name) (st : pstate) (c : cached) : Prop :=
+  match c with
+  | COk _ s => off st <= off s /\ (off s = off st -> nul n = true) /\ bnd LEN s
+  | CErr _ => True
+  end.
 
 (* a sub-evaluation from a later state, seen from the earlier one *)
 Lemma postA_later {A} nl nl' k st st1 gl gl1 (x : R ustate A) :
@@ -244,28 +283,33 @@ Proof.
 Qed.
 
 Lemma wf_ws' : nul n_Whitespace = true.
-Proof. exact (wf_ws g nul rk WF). Qed.
+Proof. exact (wfo_ws g nul rk WF). Qed.
 
 Section Step.
 Variable ev : evals ustate.
-Hypothesis IHe : forall ctx e st gl k, wfe k (c_skip ctx) e = true -> CInv gl -> bnd LEN st ->
+Hypothesis IHe : forall ctx e st gl x k, wfe x k (c_skip ctx) e = true -> opn x k st gl -> CInv gl -> bnd LEN st ->
   postA (enull e) k st gl (ev_expr ev ctx e st gl).
-Hypothesis IHr : forall n st gl k, bound_ok rk k (UCall n) = true -> CInv gl -> bnd LEN st ->
+Hypothesis IHr : forall n st gl k, callok k n st gl -> CInv gl -> bnd LEN st ->
   postA (nul n) k st gl (ev_rule ev n st gl).
-Hypothesis IHl : forall ctx b plus st it acc gl k, wfe k (c_skip ctx) b = true -> enull b = false -> CInv gl -> bnd LEN st ->
+Hypothesis IHl : forall ctx b plus st it acc gl x k, wfe x k (c_skip ctx) b = true -> enull b = false ->
+  opn x k st gl -> CInv gl -> bnd LEN st ->
   postA (negb (plus && Nat.eqb it 0)) k st gl (ev_loop ev ctx b plus st it acc gl).
+Hypothesis IHg : forall r st best gl, In (GRule r) g -> find_grule g (r_name r) = Some (GRule r) ->
+  fl_left_recursive (flags_of (r_directives r)) = true ->
+  has_entry (r_name r, off st) gl -> bestok (r_name r) st best -> CInv gl -> bnd LEN st ->
+  postA (nul (r_name r)) (Some (rk (UCall (r_name r)))) st gl (ev_grow ev r st best gl).
 
 Lemma with_ws_post {A} nl ctx st gl k (kont : pstate -> glb -> R ustate A) :
   ws_ok rk k (c_skip ctx) = true -> CInv gl -> bnd LEN st ->
-  (forall st1 gl1, off st <= off st1 -> CInv gl1 -> bnd LEN st1 -> postA nl (kat st st1 k) st1 gl1 (kont st1 gl1)) ->
+  (forall st1 gl1, off st <= off st1 -> mono gl gl1 -> CInv gl1 -> bnd LEN st1 -> postA nl (kat st st1 k) st1 gl1 (kont st1 gl1)) ->
   postA nl k st gl (with_ws ustate ev ctx st gl kont).
 Proof.
   intros W C Bd H. unfold with_ws. unfold ws_ok in W. destruct (c_skip ctx).
-  - pose proof (IHr n_Whitespace st gl k W C Bd) as P.
+  - pose proof (IHr n_Whitespace st gl k (or_introl W) C Bd) as P.
     destruct (ev_rule ev n_Whitespace st gl) as [[v st1|e|p|] gl1]; cbn in P; cbn; auto.
     destruct P as (P1 & _ & P3 & P4 & P5).
-    eapply postA_later; [exact P1|exact P3| |apply H; auto]. auto.
-  - specialize (H st gl (Nat.le_refl _) C Bd). rewrite kat_same in H. exact H.
+    eapply postA_later; [exact P1|exact P3| |apply H; auto]. auto. exact (G_mono _ _ _ _ P3).
+  - specialize (H st gl (Nat.le_refl _) (mono_refl gl) C Bd). rewrite kat_same in H. exact H.
 Qed.
 
 Lemma lift_post {X Y} (f : X -> Y) sp nl k st gl (r : tres X) :
@@ -308,40 +352,42 @@ Proof.
   intros E G1 N P. apply (postA_later nl nl' k st st1 gl gl1); [lia|exact G1|auto|]. unfold kat. rewrite E, Nat.eqb_refl. exact P.
 Qed.
 
-Lemma choice_loop_post ctx fds alts : forall cst gl k,
-  forallb (wfe k (c_skip ctx)) alts = true -> CInv gl -> bnd LEN cst ->
+Lemma choice_loop_post ctx fds x alts : forall cst gl k,
+  forallb (wfe x k (c_skip ctx)) alts = true -> opn x k cst gl -> CInv gl -> bnd LEN cst ->
   postA (existsb enull alts) k cst gl (choice_loop ustate scfg fcfg g ev ctx fds alts cst gl).
 Proof.
-  induction alts as [|a alts IH]; intros cst gl k W C Bd; cbn [choice_loop].
+  induction alts as [|a alts IH]; intros cst gl k W O C Bd; cbn [choice_loop].
   - cbn. split; [apply G_refl|exact C].
   - cbn [forallb] in W. apply andb_prop in W. destruct W as [W1 W2].
-    pose proof (IHe ctx a cst gl k W1 C Bd) as P.
+    pose proof (IHe ctx a cst gl x k W1 O C Bd) as P.
     destruct (ev_expr ev ctx a cst gl) as [[fs st'|e|p|] gl']; cbn in P; try exact I.
     + destruct P as (P1 & P2 & P3 & P4 & P5).
       destruct (own_fields fcfg g a) as [inner|]; [|exact I].
       destruct (convert_arm fds inner fs); [|exact I].
       cbn. split; [exact P1|]. split; [|split; [assumption|split; assumption]]. intro E. rewrite (P2 E). reflexivity.
     + destruct P as (P3 & P4).
-      eapply postA_same_off; [apply off_record|exact P3| |apply IH; [assumption|assumption|apply bnd_record; exact Bd]].
-      cbn [existsb]. intro H. rewrite H. apply Bool.orb_true_r.
+      eapply postA_same_off; [apply off_record|exact P3| |apply IH; [assumption| |assumption|apply bnd_record; exact Bd]].
+      * cbn [existsb]. intro H. rewrite H. apply Bool.orb_true_r.
+      * eapply opn_same; [apply off_record|exact (G_mono _ _ _ _ P3)|exact O].
 Qed.
 
-Lemma seq_loop_post ctx fds parts : forall st acc gl k,
-  wfseq k (c_skip ctx) parts = true -> CInv gl -> bnd LEN st ->
+Lemma seq_loop_post ctx fds x parts : forall st acc gl k,
+  wfseq x k (c_skip ctx) parts = true -> opn x k st gl -> CInv gl -> bnd LEN st ->
   postA (forallb enull parts) k st gl (seq_loop ustate ev ctx fds parts st acc gl).
 Proof.
-  induction parts as [|p ps IH]; intros st acc gl k W C Bd; cbn [seq_loop].
+  induction parts as [|p ps IH]; intros st acc gl k W O C Bd; cbn [seq_loop].
   - destruct (order_as fds acc); [|exact I]. cbn. split; [lia|]. split; [reflexivity|]. split; [apply G_refl|split; [exact C|exact Bd]].
-  - cbn [WellFormed.wfseq] in W. apply andb_prop in W. destruct W as [W1 W2].
-    pose proof (IHe ctx p st gl k W1 C Bd) as P.
+  - cbn [wfseqS] in W. apply andb_prop in W. destruct W as [W1 W2].
+    pose proof (IHe ctx p st gl x k W1 O C Bd) as P.
     destruct (ev_expr ev ctx p st gl) as [[fs st'|e|pp|] gl']; cbn in P; try exact I; [|exact P].
     destruct P as (P1 & P2 & P3 & P4 & P5).
     destruct (seq_merge_vals acc fs) as [acc'|]; [|exact I].
     eapply postA_later; [exact P1|exact P3| |].
     + intros E H. cbn [forallb]. rewrite (P2 E). exact H.
-    + eapply postA_bound; [| |apply (IH st' acc' gl' _ W2 P4 P5)]; [|auto].
-      intros u B. unfold kat. destruct (Nat.eqb (off st') (off st)) eqn:Q; [|reflexivity].
-      apply Nat.eqb_eq in Q. rewrite (P2 Q) in B. exact B.
+    + eapply postA_bound; [| |apply (IH st' acc' gl' (kat st st' (if enull p then k else None)) (wfseq_kat _ _ _ _ _ _ W2))]; [|auto| |exact P4|exact P5].
+      * intros u B. unfold kat in *. destruct (Nat.eqb (off st') (off st)) eqn:Q; [|reflexivity].
+        apply Nat.eqb_eq in Q. rewrite (P2 Q) in B. exact B.
+      * eapply opn_kat; [|exact (G_mono _ _ _ _ P3)|exact O]. destruct (enull p); [auto|intro N; exfalso; apply N; reflexivity].
 Qed.
 
 Lemma run_lit_post m nl k st gl :
@@ -359,81 +405,86 @@ Proof.
     specialize (N eq_refl). cbn in N. destruct s; [discriminate|discriminate].
 Qed.
 
-Theorem expr_step_post ctx e st gl k :
-  wfe k (c_skip ctx) e = true -> CInv gl -> bnd LEN st ->
+Theorem expr_step_post ctx e st gl x k :
+  wfe x k (c_skip ctx) e = true -> opn x k st gl -> CInv gl -> bnd LEN st ->
   postA (enull e) k st gl (expr_step ustate scfg tcfg fcfg rcfg g ev ctx e st gl).
 Proof.
-  intros W C Bd. destruct e; cbn [expr_step].
+  intros W O C Bd. destruct e; cbn [expr_step].
   - (* EChoice *)
-    cbn [WellFormed.wfe] in W.
+    cbn [wfeS] in W.
     destruct alts as [|a [|a2 rest]]; [exact I| |].
     + cbn [forallb] in W. apply andb_prop in W. destruct W as [W _].
-      eapply postA_bound; [| |apply (IHe ctx a st gl k W C Bd)]; [auto|]. cbn. intros ->. reflexivity.
-    + destruct (filt fcfg g ctx _); [|exact I]. apply choice_loop_post; assumption.
+      eapply postA_bound; [| |apply (IHe ctx a st gl x k W O C Bd)]; [auto|]. cbn. intros ->. reflexivity.
+    + destruct (filt fcfg g ctx _); [|exact I]. apply (choice_loop_post ctx _ x); assumption.
   - (* ESeq *)
-    rewrite wfe_seq_eq in W.
+    rewrite wfeS_seq_eq in W.
     destruct parts as [|p [|p2 rest]].
     + cbn. split; [lia|]. split; [reflexivity|]. split; [apply G_refl|split; [exact C|exact Bd]].
-    + cbn [WellFormed.wfseq] in W. apply andb_prop in W. destruct W as [W _].
-      eapply postA_bound; [| |apply (IHe ctx p st gl k W C Bd)]; [auto|]. cbn. intros ->. reflexivity.
-    + destruct (filt fcfg g ctx _); [|exact I]. apply seq_loop_post; assumption.
-  - (* EGroup *) cbn [WellFormed.wfe] in W. exact (IHe ctx e st gl k W C Bd).
+    + cbn [wfseqS] in W. apply andb_prop in W. destruct W as [W _].
+      eapply postA_bound; [| |apply (IHe ctx p st gl x k W O C Bd)]; [auto|]. cbn. intros ->. reflexivity.
+    + destruct (filt fcfg g ctx _); [|exact I]. apply (seq_loop_post ctx _ x); assumption.
+  - (* EGroup *) cbn [wfeS] in W. exact (IHe ctx e st gl x k W O C Bd).
   - (* EOptional *)
-    cbn [WellFormed.wfe] in W. pose proof (IHe ctx e st gl k W C Bd) as P.
+    cbn [wfeS] in W. pose proof (IHe ctx e st gl x k W O C Bd) as P.
     destruct (ev_expr ev ctx e st gl) as [[fs st'|er|p|] gl']; cbn in P; try exact I.
     + destruct P as (P1 & _ & P3 & P4 & P5). cbn. auto.
     + destruct P as (P3 & P4). destruct (filt fcfg g ctx e); [|exact I]. destruct (defaults l); [|exact I].
       cbn. rewrite off_record. split; [lia|]. split; [reflexivity|]. split; [assumption|split; [assumption|apply bnd_record; exact Bd]].
   - (* EClosure *)
-    cbn [WellFormed.wfe] in W. apply andb_prop in W. destruct W as [W1 W2]. apply Bool.negb_true_iff in W2.
+    cbn [wfeS] in W. apply andb_prop in W. destruct W as [W1 W2]. apply Bool.negb_true_iff in W2.
     destruct (filt fcfg g ctx e); [|exact I].
-    eapply postA_bound; [| |apply (IHl ctx e at_least_one st 0 (empty_vecs l) gl k W1 W2 C Bd)]; [auto|].
+    eapply postA_bound; [| |apply (IHl ctx e at_least_one st 0 (empty_vecs l) gl x k W1 W2 O C Bd)]; [auto|].
     cbn [WellFormed.enull]. rewrite W2. destruct at_least_one; cbn; auto.
   - (* ENeg *)
-    cbn [WellFormed.wfe] in W. pose proof (IHe ctx e st gl k W C Bd) as P.
+    cbn [wfeS] in W. pose proof (IHe ctx e st gl x k W O C Bd) as P.
     destruct (ev_expr ev ctx e st gl) as [[fs st'|er|p|] gl']; cbn in P; try exact I.
     + destruct P as (_ & _ & P3 & P4 & _). cbn. split; [|exact P4]. eapply G_trans; [exact P3|apply G_same; reflexivity].
     + destruct P as (P3 & P4). cbn. split; [lia|]. split; [reflexivity|]. split; [assumption|split; assumption].
   - (* EPos *)
-    cbn [WellFormed.wfe] in W. pose proof (IHe ctx e st gl k W C Bd) as P.
+    cbn [wfeS] in W. pose proof (IHe ctx e st gl x k W O C Bd) as P.
     destruct (ev_expr ev ctx e st gl) as [[fs st'|er|p|] gl']; cbn in P; try exact I.
     + destruct P as (_ & _ & P3 & P4 & _). cbn. split; [lia|]. split; [reflexivity|]. split; [assumption|split; assumption].
     + exact P.
   - (* ERange *)
-    cbn [WellFormed.wfe] in W. destruct (compile_range from to); try exact I.
-    apply no_fields_post. apply with_ws_post; [exact W|exact C|exact Bd|]. intros st1 gl1 Lp C1 B1.
+    cbn [wfeS] in W. destruct (compile_range from to); try exact I.
+    apply no_fields_post. apply with_ws_post; [exact W|exact C|exact Bd|]. intros st1 gl1 Lp M1 C1 B1.
     apply lift_post; [exact C1|exact B1|]. cbn. apply off_range.
   - (* ELit *)
-    cbn [WellFormed.wfe] in W. destruct (compile_lit (insens_guard rcfg) insensitive body) as [m| | |] eqn:CL; try exact I.
-    apply no_fields_post. apply with_ws_post; [exact W|exact C|exact Bd|]. intros st1 gl1 Lp C1 B1.
+    cbn [wfeS] in W. destruct (compile_lit (insens_guard rcfg) insensitive body) as [m| | |] eqn:CL; try exact I.
+    apply no_fields_post. apply with_ws_post; [exact W|exact C|exact Bd|]. intros st1 gl1 Lp M1 C1 B1.
     apply run_lit_post; [exact C1|exact B1|]. cbn [WellFormed.enull]. intro N.
     eapply compile_lit_nonnull; [exact CL|]. destruct body; [discriminate|discriminate].
   - (* EEoi *)
-    cbn [WellFormed.wfe] in W. apply no_fields_post. apply with_ws_post; [exact W|exact C|exact Bd|]. intros st1 gl1 Lp C1 B1.
+    cbn [wfeS] in W. apply no_fields_post. apply with_ws_post; [exact W|exact C|exact Bd|]. intros st1 gl1 Lp M1 C1 B1.
     apply lift_post; [exact C1|exact B1|]. cbn. apply off_eoi.
   - (* EInclude *)
-    cbn [WellFormed.wfe] in W. destruct (find_rule g rule) as [r|] eqn:F; [|exact I].
-    destruct (fr_in _ _ _ F) as [I1 I2]. pose proof (wf_rank g nul rk WF _ I1) as K. cbn [rank_ok_rule] in K.
+    cbn [wfeS] in W. destruct (find_rule g rule) as [r|] eqn:F; [|exact I].
+    destruct (fr_in _ _ _ F) as [I1 I2]. pose proof (wfo_rank g nul rk WF _ I1) as K. cbn [rank_ok_once] in K.
     apply andb_prop in K. destruct K as [K K3]. apply andb_prop in K. destruct K as [_ K2]. rewrite I2 in K2, K3.
-    pose proof (wf_nul g nul rk WF _ I1) as Kn. cbn [nul_ok_rule] in Kn. rewrite I2 in Kn.
-    assert (Wb : wfe (Some (rk (UInc (c_skip ctx) rule))) (c_skip ctx) (r_def r) = true) by (destruct (c_skip ctx); assumption).
-    eapply postA_bound; [| |apply (IHe ctx (r_def r) st gl _ Wb C Bd)].
+    pose proof (wfo_nul g nul rk WF _ I1) as Kn. cbn [nul_ok_rule] in Kn. rewrite I2 in Kn.
+    assert (Wb : wfe None (Some (rk (UInc (c_skip ctx) rule))) (c_skip ctx) (r_def r) = true) by (destruct (c_skip ctx); assumption).
+    eapply postA_bound; [| |apply (IHe ctx (r_def r) st gl None _ Wb (opn_none _ _ _) C Bd)].
     + intros u B. destruct k as [k0|]; [|reflexivity]. cbn in *. apply Nat.ltb_lt in W. apply Nat.ltb_lt in B. apply Nat.ltb_lt. lia.
     + cbn [WellFormed.enull]. intro H. rewrite H in Kn. exact Kn.
   - (* EField *)
-    cbn [WellFormed.wfe] in W. apply andb_prop in W. destruct W as [W1 W2].
+    cbn [wfeS] in W. apply andb_prop in W. destruct W as [W1 W2].
     assert (P : postA (nul typ) k st gl (with_ws ustate ev ctx st gl (fun st0 gl0 => ev_rule ev typ st0 gl0))).
-    { apply with_ws_post; [exact W1|exact C|exact Bd|]. intros st1 gl1 Lp C1 B1. apply IHr; [apply bound_kat; exact W2|exact C1|exact B1]. }
+    { apply with_ws_post; [exact W1|exact C|exact Bd|]. intros st1 gl1 Lp M1 C1 B1. apply IHr; [|exact C1|exact B1].
+      apply Bool.orb_true_iff in W2. destruct W2 as [W2|W2]; [|left; apply bound_kat; exact W2].
+      destruct x as [a|]; [|discriminate]. cbn in W2. apply name_eqb_eq in W2. subst a.
+      assert (O1 : opn (Some typ) (kat st st1 k) st1 gl1) by (eapply opn_kat; [|exact M1|exact O]; auto).
+      destruct (O1 typ eq_refl) as [L H]. destruct (kat st st1 k) as [k0|] eqn:Q; [|left; reflexivity].
+      right. split; [exact L|apply H; discriminate]. }
     destruct (fname_of fname); [|apply no_fields_post; exact P].
     destruct (with_ws ustate ev ctx st gl (fun st0 gl0 => ev_rule ev typ st0 gl0)) as [[v st'|er|p|] gl']; cbn in P; try exact I; [|exact P].
     destruct (postprocess (c_fields ctx) n typ v); [exact P|exact I].
 Qed.
 
-Theorem loop_step_post ctx b plus st it acc gl k :
-  wfe k (c_skip ctx) b = true -> enull b = false -> CInv gl -> bnd LEN st ->
+Theorem loop_step_post ctx b plus st it acc gl x k :
+  wfe x k (c_skip ctx) b = true -> enull b = false -> opn x k st gl -> CInv gl -> bnd LEN st ->
   postA (negb (plus && Nat.eqb it 0)) k st gl (loop_step ustate scfg ev ctx b plus st it acc gl).
 Proof.
-  intros W N C Bd. unfold loop_step. pose proof (IHe ctx b st gl k W C Bd) as P.
+  intros W N O C Bd. unfold loop_step. pose proof (IHe ctx b st gl x k W O C Bd) as P.
   destruct (ev_expr ev ctx b st gl) as [[fs st'|er|p|] gl']; cbn in P; try exact I.
   - destruct P as (P1 & P2 & P3 & P4 & P5).
     assert (Lt : off st < off st').
@@ -441,7 +492,8 @@ Proof.
     destruct (extend_all acc fs) as [acc'|]; [|exact I].
     eapply postA_later; [exact P1|exact P3| |].
     + intros E. lia.
-    + apply IHl; [apply wfe_kat; exact W|exact N|exact P4|exact P5].
+    + apply (IHl ctx b plus st' (S it) acc' gl' x); [apply wfe_kat; exact W|exact N| |exact P4|exact P5].
+      eapply opn_kat; [|exact (G_mono _ _ _ _ P3)|exact O]. auto.
   - destruct P as (P3 & P4). destruct (plus && Nat.eqb it 0) eqn:PI; cbn.
     + split; assumption.
     + rewrite off_record. split; [lia|]. split; [reflexivity|]. split; [assumption|split; [assumption|apply bnd_record; exact Bd]].
@@ -489,14 +541,14 @@ Proof.
   - cbn. auto.
 Qed.
 
-Theorem rule_body_post r st gl k :
-  wfe k (negb (fl_no_skip_ws (flags_of (r_directives r)))) (r_def r) = true -> CInv gl -> bnd LEN st ->
+Theorem rule_body_post r st gl x k :
+  wfe x k (negb (fl_no_skip_ws (flags_of (r_directives r)))) (r_def r) = true -> opn x k st gl -> CInv gl -> bnd LEN st ->
   postA (enull (r_def r)) k st gl (rule_body ustate scfg fcfg hk g ev r st gl).
 Proof.
-  intros W C Bd. unfold rule_body.
+  intros W O C Bd. unfold rule_body.
   destruct (get_fields fcfg (gf_fuel g) g (r_def r)) as [rf| |]; try exact I.
   set (ctx := {| c_skip := negb (fl_no_skip_ws (flags_of (r_directives r))); c_fields := rf |}).
-  pose proof (IHe ctx (r_def r) st gl k W C Bd) as P.
+  pose proof (IHe ctx (r_def r) st gl x k W O C Bd) as P.
   destruct (ev_expr ev ctx (r_def r) st gl) as [[fs st'|e|p|] gl']; cbn in P; try exact I; [|exact P].
   destruct P as (P1 & P2 & P3 & P4 & P5).
   match goal with |- postA _ _ _ _ (match ?o with _ => _ end) => destruct o as [v|] end; [|exact I].
@@ -553,38 +605,113 @@ Proof.
   intros Hin Hm. unfold mnames. apply in_flat_map. exists (GRule r). split; [exact Hin|]. rewrite Hm. left. reflexivity.
 Qed.
 
-Theorem memo_wrap_post r st gl k :
-  In (GRule r) g -> bound_ok rk k (UCall (r_name r)) = true -> CInv gl -> bnd LEN st ->
-  postA (nul (r_name r)) k st gl (memo_wrap ustate scfg fcfg rcfg hk g ev r st gl).
+Lemma G_put p k n o c (gl : glb) : G p k gl (cache_put ustate n o c gl).
 Proof.
-  intros Hin B C Bd. unfold memo_wrap. rewrite (NoLR r Hin).
-  pose proof (wf_rank g nul rk WF _ Hin) as K. cbn [rank_ok_rule] in K.
-  apply andb_prop in K. destruct K as [K _]. apply andb_prop in K. destruct K as [K _].
-  rewrite (NoLR r Hin) in K. cbn [orb] in K.
-  pose proof (wf_nul g nul rk WF _ Hin) as Kn. cbn [nul_ok_rule] in Kn.
+  split; [intros e H; apply has_entry_put; exact H|]. exists []. split; [reflexivity|]. split; [constructor|].
+  split; [constructor|]. split; [intros e []|]. split; [intros e []|constructor].
+Qed.
+
+Lemma is_lrule_found r : find_grule g (r_name r) = Some (GRule r) ->
+  is_lrule g (r_name r) = fl_left_recursive (flags_of (r_directives r)).
+Proof. intro F. unfold is_lrule. rewrite F. reflexivity. Qed.
+
+Lemma bound_trans k n : bound_ok rk k (UCall n) = true ->
+  forall u, bound_ok rk (Some (rk (UCall n))) u = true -> bound_ok rk k u = true.
+Proof.
+  intros B u Bu. destruct k as [k0|]; [|reflexivity]. cbn in *. apply Nat.ltb_lt in B. apply Nat.ltb_lt in Bu. apply Nat.ltb_lt. lia.
+Qed.
+
+Lemma hit_post n st gl k c :
+  cache_get n (off st) (g_cache gl) = Some c -> CInv gl ->
+  forall gl', g_cache gl' = g_cache gl -> g_evals gl' = g_evals gl ->
+  postA (nul n) k st gl (of_cached c, gl').
+Proof.
+  intros CG C gl' E1 E2. destruct c as [v s|e]; cbn.
+  - destruct (C _ _ _ _ CG) as (C1 & C2 & C3). split; [exact C1|]. split; [exact C2|].
+    split; [apply G_same; assumption|split; [eapply CInv_same; [|exact C]; assumption|exact C3]].
+  - split; [apply G_same; assumption|eapply CInv_same; [|exact C]; assumption].
+Qed.
+
+(* one turn of the growth loop of a @leftrec rule that is open at this offset *)
+Theorem grow_step_post r st best gl :
+  In (GRule r) g -> find_grule g (r_name r) = Some (GRule r) ->
+  fl_left_recursive (flags_of (r_directives r)) = true ->
+  has_entry (r_name r, off st) gl -> bestok (r_name r) st best -> CInv gl -> bnd LEN st ->
+  postA (nul (r_name r)) (Some (rk (UCall (r_name r)))) st gl (grow_step ustate scfg fcfg rcfg hk g ev r st best gl).
+Proof.
+  intros Hin F LR He Hb C Bd. unfold grow_step.
+  pose proof (wfo_rank g nul rk WF _ Hin) as K. cbn [rank_ok_once] in K.
+  apply andb_prop in K. destruct K as [K _]. apply andb_prop in K. destruct K as [K _]. rewrite LR in K.
+  pose proof (wfo_nul g nul rk WF _ Hin) as Kn. cbn [nul_ok_rule] in Kn.
   assert (Hn : enull (r_def r) = true -> nul (r_name r) = true).
   { intro H. rewrite H in Kn. exact Kn. }
-  assert (Tr : forall u, bound_ok rk (Some (rk (UCall (r_name r)))) u = true -> bound_ok rk k u = true).
-  { intros u Bu. destruct k as [k0|]; [|reflexivity]. cbn in *. apply Nat.ltb_lt in B. apply Nat.ltb_lt in Bu. apply Nat.ltb_lt. lia. }
-  destruct (fl_memoize (flags_of (r_directives r))) eqn:FM.
-  - assert (Tok : entok (r_name r, off st)).
-    { split; [apply mnames_in; assumption|]. cbn. unfold bnd in Bd. lia. }
+  set (gl1 := trace ustate (TInfo 2) gl).
+  assert (C1 : CInv gl1) by (eapply CInv_same; [|exact C]; reflexivity).
+  assert (O : opn (Some (r_name r)) (Some (rk (UCall (r_name r)))) st gl1).
+  { intros a Ha. injection Ha as <-. split; [rewrite (is_lrule_found r F); exact LR|]. intros _. exact He. }
+  pose proof (rule_body_post r st gl1 _ _ K O C1 Bd) as P.
+  apply (postA_pre _ _ _ gl gl1) in P; [|reflexivity|reflexivity].
+  destruct (rule_body ustate scfg fcfg hk g ev r st gl1) as [[v st'|e|p|] gl2]; cbn in P; try exact I.
+  - destruct P as (P1 & P2 & P3 & P4 & P5).
+    assert (Grow : postA (nul (r_name r)) (Some (rk (UCall (r_name r)))) st gl
+                     (ev_grow ev r st (COk v st') (cache_put ustate (r_name r) (off st) (COk v st') gl2))).
+    { eapply postA_same_off; [reflexivity| | |apply IHg; try assumption].
+      - eapply G_trans; [exact P3|apply G_put].
+      - auto.
+      - apply has_entry_put_self.
+      - cbn. split; [exact P1|]. split; [auto|exact P5].
+      - apply CInv_put; [exact P4|]. intros v0 s0 E. injection E as <- <-. split; [exact P1|split; [auto|exact P5]]. }
+    destruct best as [bv bst|be]; [|exact Grow].
+    destruct (is_further_than scfg st' bst); [exact Grow|].
+    cbn in Hb. destruct Hb as (B1 & B2 & B3). cbn. split; [exact B1|]. split; [exact B2|]. split; [exact P3|split; [exact P4|exact B3]].
+  - destruct P as (P3 & P4). destruct (leftrec_closed rcfg).
+    + destruct best as [bv bst|be].
+      * cbn in Hb. destruct Hb as (B1 & B2 & B3). cbn. split; [exact B1|]. split; [exact B2|]. split; [exact P3|split; [exact P4|exact B3]].
+      * cbn. split; [eapply G_trans; [exact P3|apply G_put]|]. apply CInv_put; [exact P4|]. intros v0 s0 E. discriminate.
+    + cbn. split; assumption.
+Qed.
+
+Theorem memo_wrap_post r st gl k :
+  In (GRule r) g -> find_grule g (r_name r) = Some (GRule r) -> callok k (r_name r) st gl -> CInv gl -> bnd LEN st ->
+  postA (nul (r_name r)) k st gl (memo_wrap ustate scfg fcfg rcfg hk g ev r st gl).
+Proof.
+  intros Hin F B C Bd. unfold memo_wrap.
+  pose proof (wfo_rank g nul rk WF _ Hin) as K. cbn [rank_ok_once] in K.
+  apply andb_prop in K. destruct K as [K _]. apply andb_prop in K. destruct K as [K _].
+  pose proof (wfo_nul g nul rk WF _ Hin) as Kn. cbn [nul_ok_rule] in Kn.
+  assert (Hn : enull (r_def r) = true -> nul (r_name r) = true).
+  { intro H. rewrite H in Kn. exact Kn. }
+  destruct (fl_left_recursive (flags_of (r_directives r))) eqn:LR.
+  - (* @leftrec: answered from the cache while open, otherwise seeded with the sentinel and grown *)
     destruct (cache_get (r_name r) (off st) (g_cache gl)) as [c|] eqn:CG.
-    + destruct c as [v s|e]; cbn.
-      * destruct (C _ _ _ _ CG) as (C1 & C2 & C3). split; [exact C1|]. split; [exact C2|].
-        split; [apply G_same; reflexivity|split; [eapply CInv_same; [|exact C]; reflexivity|exact C3]].
-      * split; [apply G_same; reflexivity|eapply CInv_same; [|exact C]; reflexivity].
-    + set (gl1 := log_eval ustate (r_name r, off st) gl).
-      assert (C1 : CInv gl1) by (eapply CInv_same; [|exact C]; reflexivity).
-      pose proof (rule_body_post r st gl1 (Some (rk (UCall (r_name r)))) K C1 Bd) as P.
-      destruct (rule_body ustate scfg fcfg hk g ev r st gl1) as [[v st'|e|p|] gl']; cbn in P; try exact I.
-      * destruct P as (P1 & P2 & P3 & P4 & P5). cbn. split; [exact P1|]. split; [auto|]. split; [|split; [|exact P5]].
-        -- eapply G_miss; eauto.
-        -- apply CInv_put; [exact P4|]. intros v0 s0 E. injection E as <- <-. split; [exact P1|split; [auto|exact P5]].
-      * destruct P as (P3 & P4). rewrite Hclosed. cbn. split.
-        -- eapply G_miss; eauto.
-        -- apply CInv_put; [exact P4|]. intros v0 s0 E. discriminate.
-  - eapply postA_bound; [exact Tr|exact Hn|]. apply rule_body_post; assumption.
+    + apply (hit_post _ _ _ _ _ CG C); reflexivity.
+    + destruct B as [B|[_ B]]; [|exfalso; apply B; exact CG].
+      eapply postA_same_off; [reflexivity|apply G_put| |].
+      * intro H. exact H.
+      * eapply postA_bound; [exact (bound_trans _ _ B)|intro H; exact H|].
+        apply IHg; try assumption.
+        -- apply has_entry_put_self.
+        -- exact I.
+        -- apply CInv_put; [exact C|]. intros v0 s0 E. discriminate.
+  - assert (B' : bound_ok rk k (UCall (r_name r)) = true).
+    { destruct B as [B|[B _]]; [exact B|]. rewrite (is_lrule_found r F), LR in B. discriminate. }
+    pose proof (bound_trans _ _ B') as Tr.
+    destruct (fl_memoize (flags_of (r_directives r))) eqn:FM.
+    + assert (Tok : entok (r_name r, off st)).
+      { split; [apply mnames_in; assumption|]. cbn. unfold bnd in Bd. lia. }
+      destruct (cache_get (r_name r) (off st) (g_cache gl)) as [c|] eqn:CG.
+      * apply (hit_post _ _ _ _ _ CG C); reflexivity.
+      * set (gl1 := log_eval ustate (r_name r, off st) gl).
+        assert (C1 : CInv gl1) by (eapply CInv_same; [|exact C]; reflexivity).
+        pose proof (rule_body_post r st gl1 None (Some (rk (UCall (r_name r)))) K (opn_none _ _ _) C1 Bd) as P.
+        destruct (rule_body ustate scfg fcfg hk g ev r st gl1) as [[v st'|e|p|] gl']; cbn in P; try exact I.
+        -- destruct P as (P1 & P2 & P3 & P4 & P5). cbn. split; [exact P1|]. split; [auto|]. split; [|split; [|exact P5]].
+           ++ eapply G_miss; eauto.
+           ++ apply CInv_put; [exact P4|]. intros v0 s0 E. injection E as <- <-. split; [exact P1|split; [auto|exact P5]].
+        -- destruct P as (P3 & P4). rewrite Hclosed. cbn. split.
+           ++ eapply G_miss; eauto.
+           ++ apply CInv_put; [exact P4|]. intros v0 s0 E. discriminate.
+    + eapply postA_bound; [exact Tr|exact Hn|]. apply (rule_body_post r st gl None); [exact K|apply opn_none|exact C|exact Bd].
 Qed.
 
 Lemma char_parts_post nm ps : forall st gl k,
@@ -607,7 +734,7 @@ Proof.
     destruct (parse_character_range scfg tcfg st x y) as [v st'|e| |]; cbn in T; try exact I.
     + destruct T as [T1 T2]. cbn. split; [lia|]. split; [intro; lia|]. split; [apply G_refl|split; [exact C|auto]].
     + exact IH'.
-  - pose proof (IHr n st gl k (B n (or_introl eq_refl)) C Bd) as P.
+  - pose proof (IHr n st gl k (or_introl (B n (or_introl eq_refl))) C Bd) as P.
     destruct (ev_rule ev n st gl) as [[v st'|e|p|] gl']; cbn in P; try exact I.
     + destruct P as (P1 & P2 & P3 & P4 & P5). cbn. split; [exact P1|]. split; [|split; [assumption|split; assumption]].
       intro E. rewrite (P2 E). reflexivity.
@@ -622,8 +749,8 @@ Lemma char_rule_post r st gl k :
   postA (nul (cr_name r)) k st gl (char_rule_body ustate scfg tcfg hk ev r st gl).
 Proof.
   intros Hin B C Bd.
-  pose proof (wf_rank g nul rk WF _ Hin) as K. cbn [rank_ok_rule] in K. rewrite forallb_forall in K.
-  pose proof (wf_nul g nul rk WF _ Hin) as Kn. cbn [nul_ok_rule] in Kn.
+  pose proof (wfo_rank g nul rk WF _ Hin) as K. cbn [rank_ok_once] in K. rewrite forallb_forall in K.
+  pose proof (wfo_nul g nul rk WF _ Hin) as Kn. cbn [nul_ok_rule] in Kn.
   assert (P : postA (nul (cr_name r)) k st gl (char_parts ustate scfg tcfg ev (cr_name r) (cr_choices r) st gl)).
   { eapply postA_bound; [| |apply (char_parts_post (cr_name r) (cr_choices r) st gl (Some (rk (UCall (cr_name r)))))].
     - intros u Bu. destruct k as [k0|]; [|reflexivity]. cbn in *. apply Nat.ltb_lt in B. apply Nat.ltb_lt in Bu. apply Nat.ltb_lt. lia.
@@ -641,7 +768,7 @@ Lemma extern_post r st gl k :
   In (GExtern r) g -> CInv gl -> bnd LEN st ->
   postA (nul (er_name r)) k st gl (extern_rule_body ustate scfg hk r st gl).
 Proof.
-  intros Hin C Bd. pose proof (wf_nul g nul rk WF _ Hin) as Kn. cbn [nul_ok_rule] in Kn.
+  intros Hin C Bd. pose proof (wfo_nul g nul rk WF _ Hin) as Kn. cbn [nul_ok_rule] in Kn.
   unfold extern_rule_body. destruct (h_extern hk (er_function r) (rest st) (g_user gl)) as [res u].
   destruct res as [[v n]|msg].
   - unfold advance_safe, advance. destruct (Nat.ltb (length (rest st)) n) eqn:E; [exact I|]. apply Nat.ltb_ge in E.
@@ -652,22 +779,29 @@ Proof.
 Qed.
 
 Theorem rule_step_post n st gl k :
-  bound_ok rk k (UCall n) = true -> CInv gl -> bnd LEN st ->
+  callok k n st gl -> CInv gl -> bnd LEN st ->
   postA (nul n) k st gl (rule_step ustate scfg tcfg fcfg rcfg hk g ev n st gl).
 Proof.
-  intros B C Bd. unfold rule_step. destruct (find_grule g n) as [[r|r|r]|] eqn:F.
+  intros B C Bd. unfold rule_step.
+  assert (NL : is_lrule g n = false -> bound_ok rk k (UCall n) = true).
+  { intro H. destruct B as [B|[B _]]; [exact B|]. rewrite H in B. discriminate. }
+  destruct (find_grule g n) as [[r|r|r]|] eqn:F.
   - destruct (fg_in _ _ _ F) as [Hin Hn]. cbn in Hn. subst n.
     set (gl1 := trace ustate (TStart (r_name r) (off st)) gl).
     assert (C1 : CInv gl1) by (eapply CInv_same; [|exact C]; reflexivity).
-    pose proof (memo_wrap_post r st gl1 k Hin B C1 Bd) as P.
+    assert (B1 : callok k (r_name r) st gl1).
+    { destruct B as [B|[B1 B2]]; [left; exact B|right; split; [exact B1|exact B2]]. }
+    pose proof (memo_wrap_post r st gl1 k Hin F B1 C1 Bd) as P.
     apply (postA_pre _ _ _ gl gl1) in P; [|reflexivity|reflexivity].
     destruct (memo_wrap ustate scfg fcfg rcfg hk g ev r st gl1) as [[v st'|e|p|] gl']; cbn in P |- *; try exact I.
     + destruct P as (P1 & P2 & P3 & P4 & P5). split; [exact P1|]. split; [exact P2|].
       split; [eapply G_post; [| |exact P3]; reflexivity|split; [eapply CInv_same; [|exact P4]; reflexivity|exact P5]].
     + destruct P as (P3 & P4). split; [eapply G_post; [| |exact P3]; reflexivity|eapply CInv_same; [|exact P4]; reflexivity].
-  - destruct (fg_in _ _ _ F) as [Hin Hn]. cbn in Hn. subst n. apply char_rule_post; assumption.
+  - destruct (fg_in _ _ _ F) as [Hin Hn]. cbn in Hn. subst n. apply char_rule_post; [exact Hin| |exact C|exact Bd].
+    apply NL. unfold is_lrule. rewrite F. reflexivity.
   - destruct (fg_in _ _ _ F) as [Hin Hn]. cbn in Hn. subst n. apply extern_post; assumption.
-  - destruct (name_eqb n n_char) eqn:E1.
+  - assert (B' : bound_ok rk k (UCall n) = true) by (apply NL; unfold is_lrule; rewrite F; reflexivity).
+    destruct (name_eqb n n_char) eqn:E1.
     + apply lift_post; [exact C|exact Bd|]. destruct (nul n); cbn; [apply tadv_weaken|]; apply off_char.
     + destruct (name_eqb n n_Whitespace) eqn:E2; [|exact I]. apply name_eqb_eq in E2. subst n.
       apply lift_post; [exact C|exact Bd|]. rewrite wf_ws'. cbn. apply off_ws.
@@ -677,19 +811,24 @@ End Step.
 
 (* ---- all levels --------------------------------------------------------------------- *)
 Theorem once_levels : forall n,
-  (forall ctx e st gl k, wfe k (c_skip ctx) e = true -> CInv gl -> bnd LEN st ->
+  (forall ctx e st gl x k, wfe x k (c_skip ctx) e = true -> opn x k st gl -> CInv gl -> bnd LEN st ->
      postA (enull e) k st gl (ev_expr (Run n) ctx e st gl)) /\
-  (forall nm st gl k, bound_ok rk k (UCall nm) = true -> CInv gl -> bnd LEN st ->
+  (forall nm st gl k, callok k nm st gl -> CInv gl -> bnd LEN st ->
      postA (nul nm) k st gl (ev_rule (Run n) nm st gl)) /\
-  (forall ctx b plus st it acc gl k, wfe k (c_skip ctx) b = true -> enull b = false -> CInv gl -> bnd LEN st ->
-     postA (negb (plus && Nat.eqb it 0)) k st gl (ev_loop (Run n) ctx b plus st it acc gl)).
+  (forall ctx b plus st it acc gl x k, wfe x k (c_skip ctx) b = true -> enull b = false -> opn x k st gl -> CInv gl -> bnd LEN st ->
+     postA (negb (plus && Nat.eqb it 0)) k st gl (ev_loop (Run n) ctx b plus st it acc gl)) /\
+  (forall r st best gl, In (GRule r) g -> find_grule g (r_name r) = Some (GRule r) ->
+     fl_left_recursive (flags_of (r_directives r)) = true ->
+     has_entry (r_name r, off st) gl -> bestok (r_name r) st best -> CInv gl -> bnd LEN st ->
+     postA (nul (r_name r)) (Some (rk (UCall (r_name r)))) st gl (ev_grow (Run n) r st best gl)).
 Proof.
-  induction n as [|n (IHe & IHr & IHl)].
-  - split; [|split]; intros; exact I.
-  - split; [|split]; intros; cbn [run step ev_expr ev_rule ev_loop].
-    + apply expr_step_post; assumption.
+  induction n as [|n (IHe & IHr & IHl & IHg)].
+  - split; [|split; [|split]]; intros; exact I.
+  - split; [|split; [|split]]; intros; cbn [run step ev_expr ev_rule ev_loop ev_grow].
+    + eapply expr_step_post; eassumption.
     + apply rule_step_post; assumption.
-    + apply loop_step_post; assumption.
+    + eapply loop_step_post; eassumption.
+    + apply grow_step_post; assumption.
 Qed.
 
 Lemma CInv_init u : CInv (init_glob ustate u).
@@ -699,7 +838,38 @@ End Once.
 
 (* the packrat bound: when the parse returns, no (rule, offset) occurs twice among the body
    evaluations of memoized rules that were started; each is at a memoized rule of the grammar and at
-   an offset inside the input, so there are at most (memoized rules) x (input length + 1) of them *)
+   an offset inside the input, so there are at most (memoized rules) x (input length + 1) of them.
+   Grammars with @leftrec rules are included as long as the certificate holds with the only
+   unranked reference being a @leftrec rule's own name inside its own body (OnceWF.v). *)
+Theorem at_most_once_lr ustate scfg tcfg fcfg rcfg (hk : hooks ustate) g nul rk :
+  wf_check_once g nul rk = true ->
+  memo_closed rcfg = true ->
+  forall n rule_name input u,
+  match m_parse ustate scfg tcfg fcfg rcfg hk g n rule_name input u with
+  | (MOk _ _, gl') | (MErr _, gl') =>
+    NoDup (g_evals gl') /\
+    Forall (fun e => In (fst e) (mnames g) /\ snd e <= length input) (g_evals gl') /\
+    length (g_evals gl') <= length (mnames g) * S (length input)
+  | _ => True
+  end.
+Proof.
+  intros WF Hc n rule_name input u. unfold m_parse.
+  destruct (once_levels ustate scfg tcfg fcfg rcfg hk g nul rk WF Hc (length input) n) as (_ & Hr & _).
+  assert (Bd : bnd (length input) (init_state input)) by (unfold bnd, init_state; cbn; lia).
+  pose proof (Hr rule_name (init_state input) (init_glob ustate u) None (or_introl eq_refl) (CInv_init _ _ _ _) Bd) as P.
+  assert (K : forall d : list (name * nat), NoDup d ->
+            Forall (entok g (length input)) d ->
+            NoDup d /\ Forall (fun e => In (fst e) (mnames g) /\ snd e <= length input) d /\
+            length d <= length (mnames g) * S (length input)).
+  { intros d N T. split; [exact N|]. split; [exact T|].
+    rewrite <- (seq_length (S (length input)) 0), <- prod_length.
+    apply NoDup_incl_length; [exact N|]. intros [a b] Hin. rewrite Forall_forall in T. destruct (T _ Hin) as [T1 T2].
+    apply in_prod; [exact T1|]. apply in_seq. cbn in T2. lia. }
+  destruct (ev_rule (run ustate scfg tcfg fcfg rcfg hk g n) rule_name (init_state input) (init_glob ustate u)) as [[v st'|e|p|] gl']; cbn in P; try exact I.
+  - destruct P as (_ & _ & [_ (d & E & _ & N & _ & _ & T)] & _). rewrite E. cbn [init_glob g_evals]. rewrite app_nil_r. apply K; assumption.
+  - destruct P as ([_ (d & E & _ & N & _ & _ & T)] & _). rewrite E. cbn [init_glob g_evals]. rewrite app_nil_r. apply K; assumption.
+Qed.
+
 Theorem at_most_once ustate scfg tcfg fcfg rcfg (hk : hooks ustate) g nul rk :
   wf_check g nul rk = true ->
   (forall r, In (GRule r) g -> fl_left_recursive (flags_of (r_directives r)) = false) ->
@@ -713,19 +883,5 @@ Theorem at_most_once ustate scfg tcfg fcfg rcfg (hk : hooks ustate) g nul rk :
   | _ => True
   end.
 Proof.
-  intros WF NoLR Hc n rule_name input u. unfold m_parse.
-  destruct (once_levels ustate scfg tcfg fcfg rcfg hk g nul rk WF NoLR Hc (length input) n) as (_ & Hr & _).
-  assert (Bd : bnd (length input) (init_state input)) by (unfold bnd, init_state; cbn; lia).
-  pose proof (Hr rule_name (init_state input) (init_glob ustate u) None eq_refl (CInv_init _ _ _ _) Bd) as P.
-  assert (K : forall d : list (name * nat), NoDup d ->
-            Forall (entok g (length input)) d ->
-            NoDup d /\ Forall (fun e => In (fst e) (mnames g) /\ snd e <= length input) d /\
-            length d <= length (mnames g) * S (length input)).
-  { intros d N T. split; [exact N|]. split; [exact T|].
-    rewrite <- (seq_length (S (length input)) 0), <- prod_length.
-    apply NoDup_incl_length; [exact N|]. intros [a b] Hin. rewrite Forall_forall in T. destruct (T _ Hin) as [T1 T2].
-    apply in_prod; [exact T1|]. apply in_seq. cbn in T2. lia. }
-  destruct (ev_rule (run ustate scfg tcfg fcfg rcfg hk g n) rule_name (init_state input) (init_glob ustate u)) as [[v st'|e|p|] gl']; cbn in P; try exact I.
-  - destruct P as (_ & _ & [_ (d & E & _ & N & _ & _ & T)] & _). rewrite E. cbn [init_glob g_evals]. rewrite app_nil_r. apply K; assumption.
-  - destruct P as ([_ (d & E & _ & N & _ & _ & T)] & _). rewrite E. cbn [init_glob g_evals]. rewrite app_nil_r. apply K; assumption.
+  intros WF NoLR. apply (at_most_once_lr ustate scfg tcfg fcfg rcfg hk g nul rk). apply wf_check_once_of_wf_check; assumption.
 Qed.
